@@ -21,6 +21,7 @@
 // binary ::= x41 b1 b0 <binary-data> binary
 //        ::= B b1 b0 <binary-data>
 //        ::= [x20-x2f] <binary-data>
+//        ::= [x34-x37] b0 <binary-data>
 //
 // Binary data is encoded in chunks. The octet x42 ('B') encodes the final chunk
 // and x41 ('A') represents any non-final chunk. Each chunk has a 16-bit // length value.
@@ -46,6 +47,9 @@ const (
 	_binaryShortLenTagMin = byte(0x20) // 1-byte length binary min
 	_binaryShortLenTagMax = byte(0x2f) // 1-byte length binary max
 	_binaryShortTagMaxLen = int(_binaryShortLenTagMax - _binaryShortLenTagMin)
+
+	_binaryMiddleLenTagMin = byte(0x34) // 2-octet length binary min: [x34-x37] b0 <binary-data>
+	_binaryMiddleLenTagMax = byte(0x37) // 2-octet length binary max
 )
 
 var (
@@ -156,17 +160,30 @@ func binaryChunkTag(tag byte) bool {
 	return tag == _binaryFinalChunk || tag == _binaryChunk
 }
 
+func binaryMiddleTag(tag byte) bool {
+	return tag >= _binaryMiddleLenTagMin && tag <= _binaryMiddleLenTagMax
+}
+
 func binaryEndTag(tag byte) bool {
-	return tag == _binaryFinalChunk || binaryShortTag(tag)
+	return tag == _binaryFinalChunk || binaryShortTag(tag) || binaryMiddleTag(tag)
 }
 
 func binaryTag(tag byte) bool {
-	return binaryShortTag(tag) || binaryChunkTag(tag)
+	return binaryShortTag(tag) || binaryMiddleTag(tag) || binaryChunkTag(tag)
 }
 
 func getBinaryLen(reader ByteRuneReader, tag byte) (int, error) {
 	if binaryShortTag(tag) {
 		return int(tag - _binaryShortLenTagMin), nil
+	}
+
+	if binaryMiddleTag(tag) {
+		b := make([]byte, 1)
+		_, err := io.ReadFull(reader, b)
+		if err != nil {
+			return 0, err
+		}
+		return int(tag-_binaryMiddleLenTagMin)<<8 + int(b[0]), nil
 	}
 
 	bs := make([]byte, 2)
